@@ -1,18 +1,20 @@
 #!/bin/sh
-# Run the repository's test suite (BASELINE command); timing tests are load sensitive,
-# so tests that fail are re-run once on their own before the result counts.
+# Run the repository's test suite (BASELINE command, with tighter time-outs so that a mutant that
+# makes a test hang does not block the tooling); timing tests are load sensitive, so tests that
+# fail are re-run once on their own before the result counts.
 cd "${1:-/repo}" || exit 2
 OUT=$(mktemp)
-/venv/bin/python -m pytest -ra -q -p no:cacheprovider --timeout=900 --continue-on-collection-errors >"$OUT" 2>&1
+timeout -k 5 600 /venv/bin/python -m pytest -ra -q -p no:cacheprovider --timeout=60 --continue-on-collection-errors >"$OUT" 2>&1
 rc=$?
 tail -2 "$OUT"
 if [ $rc -ne 0 ]; then
     FAILED=$(grep -E '^(FAILED|ERROR) tests/' "$OUT" | awk '{print $2}' | sort -u)
     echo "re-running: $FAILED"
-    /venv/bin/python -m pytest -q -p no:cacheprovider --timeout=900 $FAILED 2>&1 | tail -3
-    rc=$?
-    /venv/bin/python -m pytest -q -p no:cacheprovider --timeout=900 $FAILED >/dev/null 2>&1
-    rc=$?
+    if [ -n "$FAILED" ]; then
+        timeout -k 5 300 /venv/bin/python -m pytest -q -p no:cacheprovider --timeout=60 $FAILED 2>&1 | tail -3
+        timeout -k 5 300 /venv/bin/python -m pytest -q -p no:cacheprovider --timeout=60 $FAILED >/dev/null 2>&1
+        rc=$?
+    fi
 fi
 rm -f "$OUT"
 echo "tests rc=$rc"
